@@ -11,7 +11,7 @@ for d in seeded/C*; do
   prop=$(python3 -c "import json;m=json.load(open('$d/meta.json'));print(m.get('detected_by',{}).get('check') or m['property'])")
   res=""
   for s in $SEEDS; do
-    out=$(VERIF_SEED=$s tools/seedcheck.py $d --tier $TIER --prop $prop 2>&1)
+    out=$(VERIF_SEED=$s tools/seedcheck.py $d --tier $TIER --prop $prop --no-shrink 2>&1)
     rc=$(echo "$out" | grep -E "^--- " | sed 's/.*rc=//' | sort -u | tr '\n' ' ')
     if echo "$rc" | grep -q 1; then res="$res D"; else res="$res MISS(seed=$s)"; fail=1; fi
   done
@@ -25,7 +25,7 @@ print(m.get('$id','C08 C14 C15 C17 C18 C19'))")
   for p in $props; do
     res=""
     for s in $SEEDS; do
-      out=$(VERIF_SEED=$s tools/seedcheck.py $d --tier $TIER --prop $p 2>&1)
+      out=$(VERIF_SEED=$s tools/seedcheck.py $d --tier $TIER --prop $p --no-shrink 2>&1)
       rc=$(echo "$out" | grep -E "^--- " | sed 's/.*rc=//')
       if [ "$rc" = "0" ]; then res="$res silent"; else res="$res ALARM(seed=$s,rc=$rc)"; fail=1; fi
     done
